@@ -82,6 +82,9 @@ PAIR_DOCS = [
     '<clipPath id="c" clip-path="url(#x)"><rect width="60" height="60"/></clipPath></defs><rect width="90" height="90" fill="red" clip-path="url(#c)"/></svg>',
     '<svg xmlns="http://www.w3.org/2000/svg" viewBox="0 0 100 100"><defs><clipPath id="x"><circle cx="40" cy="40" r="15"/></clipPath>'
     '<clipPath id="c" clip-path="url(#x)"><rect width="60" height="60"/></clipPath></defs><rect width="90" height="90" fill="red" clip-path="url(#c)"/></svg>',
+    # the svg namespace bound to a prefix, another namespace as the default: what counts as a foreign attribute must not
+    # depend on which documents were converted before
+    '<s:svg xmlns:s="http://www.w3.org/2000/svg" xmlns="http://www.w3.org/1999/xhtml" viewBox="0 0 100 100"><s:rect width="30" height="20" fill="red"/><s:circle r="9" cx="50" cy="50"/></s:svg>',
     # stops outside [0, 1]
     '<svg xmlns="http://www.w3.org/2000/svg" viewBox="0 0 100 100"><defs><linearGradient id="o"><stop offset="-0.2" stop-color="red" stop-opacity="0.5"/><stop offset="0.5" stop-color="lime"/>'
     '<stop offset="130%" stop-color="blue" stop-opacity="0.9"/></linearGradient></defs><rect width="50" height="40" fill="url(#o)" transform="rotate(5)"/><rect width="5" height="4" fill="url(#o)"/></svg>',
